@@ -93,6 +93,7 @@ def draw_features(ctx, base=None, allow=("subtypes", "constants", "neg", "equali
     feat["or_pre"] = c.draw(4) == 0
     feat["forall_pre"] = c.draw(4) == 0
     feat["bare_pre"] = c.draw(3) == 0
+    feat["nested_cond"] = c.draw(3) == 0  # or / forall inside the conditions of when effects
     feat["max_objects"] = 3 + c.draw(3) if c.draw(8) else 6 + c.draw(3)
     feat["max_actions"] = 1 + c.draw(3) if c.draw(8) else 4 + c.draw(2)
     feat["long_names"] = c.draw(12) == 0
